@@ -82,7 +82,15 @@ def main():
                             "byte_size/alignment/padding vs the Coq model of evaluate_sizes and vs the spec; len(encode()) of fixed "
                             "types = _SIZE. distinct_nontrivial = distinct member-kind sequences with more than one member.")
     chk.sample({"schema": S.to_prophy(cases[len(cases) // 3][2])})
-    chk.assumptions += ["the C++ encoded_byte_size constant and raw sizeof are checked by the C++ stage (C05/C08 drivers)"]
+    # "... and publishes as ... the raw struct size and the padding it emits": the compiled raw header of a sample of the
+    # same schemas (every 5th exhaustive one, the special shapes, 60 random ones) must have its members at the wire
+    # offsets and sizeof of fixed types equal to the wire size (the C08 pass, reported here under C04)
+    import C08
+    sample = [c for i, c in enumerate(cases) if (c[0] == "exhaustive" and i % 5 == 0) or c[0] == "special"]
+    sample += [c for c in cases if c[0] == "random"][:60 if chk.tier == "quick" else 600]
+    entries, _ = C08.layout_pass(chk, sample, prefix="cpp-")
+    chk.coverage["raw_header_structs_compared"] = len(entries)
+    chk.assumptions += ["the C++ encoded_byte_size constant of the full codec is covered by C05's fixed-type comparison"]
     return chk.finish()
 
 
